@@ -84,6 +84,7 @@ func runC09(p *chk.Prog, r *chk.Report) {
 	c17WholeWithdraw(p, r)
 	membershipRule(p, r)
 	c09RefusalRetried(p, r)
+	peersConservedRule(p, r)
 	c05Publish(p, r)
 	c13Refcount(p, r)
 	c09Exit(p, r)
@@ -872,4 +873,54 @@ func c09PoolCurrent(p *chk.Prog, r *chk.Report) {
 		x.Check("SetBalancer:pool-of-the-current-addresses", hs.Pos(), ok, "", "the pool the Service is announced for does not come, on every path, from poolFor(c.config.Pools, <the addresses announced>): a pool remembered from an earlier sync keeps its advertisements and node selectors in force after the configuration moved the addresses elsewhere")
 	}
 	x.Check("SetBalancer:handleService", f.Pos(), n >= 1, "", "no handleService call found")
+}
+
+// peersConservedRule (shared with C05, C10): bgpController.SetConfig carries a known peer over (with its session) or
+// closes it. A peer that drops out of the books with its session open is never Set again and never closed: whatever
+// it was last offered stays in the neighbour's table. Peers are told apart by their whole configuration; `id` is the
+// address alone (two peers behind one address differ by port or VRF), so an index of the existing peers by such a key
+// loses all but one of the peers that share it.
+func peersConservedRule(p *chk.Prog, r *chk.Report) {
+	x := r.Rule("PEERS-CONSERVED", "D ownership / value flow", "in (*bgpController).SetConfig no element of c.peers is put into a map under a key derived from it, except the peer's unique configuration name: an index by `id` (the address alone) or by any other attribute can hold one peer per key only, and the peers it drops are neither kept nor closed", 1)
+	f := need(x, p, "speaker", "bgpController", "SetConfig")
+	if f == nil {
+		return
+	}
+	isPeers := func(e ast.Expr) bool {
+		return f.MatchWith("RECV.peers", f.Resolve(e), chk.H("RECV", isRecv(f))) != nil || f.MatchWith("RECV.peers", e, chk.H("RECV", isRecv(f))) != nil
+	}
+	loops := f.RangeLoops(isPeers)
+	ok, at := true, f.Pos()
+	for _, rs := range loops {
+		ep := rangeVal(f, rs)
+		ast.Inspect(rs.Body, func(n ast.Node) bool {
+			as, isAs := n.(*ast.AssignStmt)
+			if !isAs || len(as.Lhs) != len(as.Rhs) {
+				return true
+			}
+			for i, l := range as.Lhs {
+				ix, isIx := ast.Unparen(l).(*ast.IndexExpr)
+				if !isIx {
+					continue
+				}
+				if _, isMap := f.Info().TypeOf(ix.X).Underlying().(*types.Map); !isMap {
+					continue
+				}
+				rhs := ast.Unparen(as.Rhs[i])
+				if u, isU := rhs.(*ast.UnaryExpr); isU && u.Op == token.AND {
+					rhs = ast.Unparen(u.X)
+				}
+				if !ep(rhs) {
+					continue
+				}
+				// the peer itself as the key, or its configuration name, identify it; anything else may be shared
+				if ep(ix.Index) || f.MatchWith("P.cfg.Name", ix.Index, chk.H("P", ep)) != nil {
+					continue
+				}
+				ok, at = false, as.Pos()
+			}
+			return true
+		})
+	}
+	x.Check("SetConfig:known-peers-not-indexed-by-a-shared-key", at, ok && len(loops) >= 1, "", "the known peers are indexed by a key that several of them can share (id is the peer's address alone): the index keeps one of them, the others drop out of c.peers with their sessions still open - never Set again, never closed - and go on offering what they were last given")
 }
